@@ -1,6 +1,8 @@
 """C01 — muxed samples read back exactly (mux -> demux fidelity).
 
-proof:           Props/C01.v (writer invariants over unbounded histories, composed with the lookup theorems)
+proof:           Props/C01.v (writer invariants over unbounded histories), Props/C01Readback.v (composed with the lookup theorems),
+                 Props/C01Open.v (the end-to-end theorem: open_fuel on the muxer's complete output bytes returns a reader whose accessors and
+                 sample calls return the configuration and the history)
 correspondence:  extracted Writer model vs the real Mp4Writer on the same histories: per-call outcome classes,
                  the bytes before moov, every sample table / header field read from the real output by the
                  independent ISO parser (Iso/IsoFile.v, extracted)
@@ -15,7 +17,9 @@ import muxcheck
 import muxgen
 
 LEVEL = "proof"
-CONE = ["Props/C01.v", "Proofs/MuxProofs.v", "Proofs/MuxInv.v", "Model/Writer.v", "Model/Track.v"]
+CONE = ["Props/C01.v", "Props/C01Readback.v", "Props/C01Open.v", "Proofs/MuxProofs.v", "Proofs/MuxInv.v", "Proofs/MuxReadback.v", "Proofs/MuxOpen.v", "Proofs/MuxOpenKit.v",
+        "Proofs/MuxOpenFacts.v", "Proofs/MuxMoovDefs.v", "Proofs/MuxMoovConf.v", "Proofs/MuxMoovTables.v", "Proofs/LayoutOpenS.v", "Model/Writer.v", "Model/WriterMoov.v", "Model/Track.v", "Model/Reader.v"]
+MODULES = ["C01", "C01Readback", "C01Open"]
 
 
 def histories(rep):
@@ -40,7 +44,7 @@ def build(rep, bins=("run",)):
 
 
 def check(rep):
-    proof_ok, details = common.proof_layer(rep, "C01", CONE, extra_targets=["theories/Extract/Extract.vo"])
+    proof_ok, details = common.proof_layer(rep, MODULES, CONE, extra_targets=["theories/Extract/Extract.vo"])
     if not build(rep):
         return
     hs = histories(rep)
